@@ -228,8 +228,18 @@ func runC08(in sx.SX) (sx.SX, string) {
 		args = append(args, valFromSX(a))
 	}
 	m := newManager(safe)
+	// another default collection is edited first (the function is removed from it, a user function is added): default
+	// collections are independent of each other
+	other := functions.NewDefaultFunctionCollection()
+	other.RemoveByName(name)
+	other.Add(functions.NewDelegatedFunction("zz_user", func(ps []*variants.Variant, ops variants.IVariantOperations) (*variants.Variant, error) {
+		return variants.VariantFromInteger(-999), nil
+	}))
 	coll := functions.NewDefaultFunctionCollection()
 	f := coll.FindByName(name)
+	if coll.FindByName("zz_user") != nil {
+		return sx.L(sx.I(-998)), "a function added to one default collection shows up in a new default collection"
+	}
 	known := false
 	for _, n := range c08Names {
 		if strings.EqualFold(n, name) {
